@@ -1,5 +1,6 @@
 import ComposeVerif.Props.C07
 import ComposeVerif.Model.Dotenv
+import ComposeVerif.Gen.C07Callers
 /-!
 # C07 — the mapping handed to `Substitute` by the dotenv parser keeps the variable states apart
 
@@ -11,6 +12,23 @@ colon-less operators then yield inside an env file.  The real `expandVariables` 
 -/
 namespace CV.Template
 open CV.Dotenv
+
+/-- the code around `Substitute` the models were written against is the code in the source now: the mapping closure
+    of `dotenv.expandVariables` (lookup first — the condition is the bare `ok` —, then the earlier lines), the
+    way `interpolation` picks and calls `Substitute` (the lookup function handed over as is), and the statements
+    of `getFirstBraceClosingIndex` (every brace counted: `firstCloseGo`) -/
+theorem callers_are_modelled :
+    CV.Gen.c07_dotenv_substitute_arg = "value" ∧
+    CV.Gen.c07_dotenv_mapping =
+      ["if v, ok := lookupFn(k); ok { return v, true }", "v, ok := envMap[k]", "return v, ok"] ∧
+    CV.Gen.c07_interpolate_substitute =
+      ["opts.Substitute = template.Substitute",
+       "newValue, err := opts.Substitute(value, template.Mapping(opts.LookupValue))"] ∧
+    CV.Gen.c07_firstBraceClosingIndex =
+      ["openVariableBraces := 0",
+       "for i := 0; i < len(s); i++ { if s[i] == '}' { openVariableBraces-- if openVariableBraces == 0 { return i } } if s[i] == '{' { openVariableBraces++ } }",
+       "return -1"] :=
+  ⟨rfl, rfl, rfl, rfl⟩
 
 /-- a hit of the lookup function is what `Substitute` sees — also when the value is empty, and whatever the file says -/
 theorem dotenv_mapping_lookup_first (lookup : Env) (m : Map) (k v : Str) (h : lookup k = some v) :
